@@ -33,6 +33,20 @@ func cmdFor(r *vh.Rand) []byte {
 	default:
 		b = r.Bytes(1 + r.Intn(5))
 	}
+	// payload sizes: mostly tiny, sometimes tens to hundreds of bytes (compressible
+	// and incompressible), so that sizes within a batch go up and down
+	switch r.Intn(12) {
+	case 0:
+		b = r.Bytes(8 + r.Intn(60))
+	case 1:
+		b = r.Bytes(100 + r.Intn(300))
+	case 2:
+		b = make([]byte, 30+r.Intn(200))
+		for i := range b {
+			b[i] = byte(i % (1 + r.Intn(3)))
+		}
+		b[len(b)-1] = byte(r.Intn(4))
+	}
 	// result-shape dimension of the harness state machine: zero Result, Value 0 with
 	// empty non-nil Data, Value != 0 with nil Data, Value 0 with Data
 	if r.Chance(1, 4) {
@@ -44,8 +58,20 @@ func cmdFor(r *vh.Rand) []byte {
 	return b
 }
 
+// entryText: the op for one entry. The encoding (plain ApplicationEntry, v0
+// uncompressed or v0 snappy EncodedEntry) is a function of the payload, so that a
+// retry is byte-identical.
 func entryText(c, s, resp uint64, cmd []byte) string {
-	return fmt.Sprintf("E %d %d %d %s", c, s, resp, vh.Hex(cmd))
+	k := "E"
+	if len(cmd) > 0 {
+		switch cmd[len(cmd)-1] % 4 {
+		case 0:
+			k = "EN"
+		case 1:
+			k = "ES"
+		}
+	}
+	return fmt.Sprintf("%s %d %d %d %s", k, c, s, resp, vh.Hex(cmd))
 }
 
 func genCase(r *vh.Rand, i int, tier string) string {
@@ -185,6 +211,18 @@ func genCase(r *vh.Rand, i int, tier string) string {
 			emit("RESTART")
 			continue
 		}
+		if lag == 0 && !big && r.Chance(1, 18) {
+			// several entries in one task
+			n := 2 + r.Intn(5)
+			emit(fmt.Sprintf("B %d", n))
+			if r.Chance(1, 2) {
+				// all of them NoOP-session proposals (handleBatch for a concurrent state machine)
+				for j := 0; j < n; j++ {
+					emit(entryText(clients[r.Intn(len(clients))].id, 0, 0, cmdFor(r)))
+				}
+			}
+			continue
+		}
 		if r.Chance(1, 25) {
 			// the client library asks about a session without proposing anything
 			emit(fmt.Sprintf("Q %d", c.id))
@@ -280,6 +318,9 @@ func genCase(r *vh.Rand, i int, tier string) string {
 	kind := ""
 	if !big && r.Chance(2, 5) {
 		kind = " kind=conc"
+	}
+	if !big && kind == "" && r.Chance(1, 6) {
+		kind = " kind=disk"
 	}
 	if !big && r.Chance(1, 3) {
 		kind += " role=nonvoting"
